@@ -49,21 +49,22 @@ use crate::props::enums_corpus::EnumInfo;
 use scpi::parser::response::ResponseData;
 
 macro_rules! real_enum {
-    ($name:ident : $($var:ident = $mn:literal),+ $(,)?) => {
-        #[derive(Copy, Clone, PartialEq, Debug, scpi_derive::ScpiEnum)]
-        pub enum $name { $( #[scpi(mnemonic = $mn)] $var ),+ }
-        // the first variant is also the `Default` of the type, as in application code (`#[derive(Default)]` + `#[default]`
-        // cannot be generated per variant from here; a manual impl is what older code bases have)
-        impl Default for $name {
-            fn default() -> Self { Self::ALL[0] }
+    ($name:ident : $first:ident = $fmn:literal $(, $var:ident = $mn:literal)* $(,)?) => {
+        // the first variant is also the `Default` of the type, as application code writes it
+        #[derive(Copy, Clone, PartialEq, Debug, Default, scpi_derive::ScpiEnum)]
+        pub enum $name {
+            #[default]
+            #[scpi(mnemonic = $fmn)]
+            $first,
+            $( #[scpi(mnemonic = $mn)] $var ),*
         }
         impl $name {
-            const ALL: &'static [$name] = &[$($name::$var),+];
+            const ALL: &'static [$name] = &[$name::$first $(, $name::$var)*];
             fn idx(&self) -> usize { Self::ALL.iter().position(|v| v == self).unwrap() }
             pub const INFO: EnumInfo = EnumInfo {
                 name: stringify!($name),
-                mnemonics: &[$($mn as &[u8]),+],
-                field: &[$( { let _ = $mn; false } ),+],
+                mnemonics: &[$fmn as &[u8] $(, $mn as &[u8])*],
+                field: &[{ let _ = $fmn; false } $(, { let _ = $mn; false })*],
                 from_mnemonic: |s| $name::from_mnemonic(s).map(|v| v.idx()),
                 mnemonic_of: |i| $name::ALL[i].mnemonic(),
                 short_form_of: |i| $name::ALL[i].short_form(),
